@@ -338,6 +338,17 @@ Definition step (now : Z) (st0 : proc) : outcome proc :=
     end
   end.
 
+(* The Action that Executor::step returns for this slice (its second component), as far as the
+   select is concerned: only initialize_select with awaited pids returns one,
+   `Action::Await { targets: pid_targets, caller }` (executor.rs:2228); the slice then ends parked. *)
+Definition step_action (now : Z) (st0 : proc) : option (list pid) :=
+  let st := check_expired now st0 in
+  if negb (p_queued st) then None
+  else match p_error st, p_value st, p_sel st with
+       | None, None, None => match pids_of written with [] => None | ps => Some ps end
+       | _, _, _ => None
+       end.
+
 (* arrivals between entries *)
 Inductive event :=
 | EStep (now : Z)                        (* an Executor::step that executes the Select instruction
